@@ -7,7 +7,7 @@ PROPS["C17"] = dict(
                              "in.init-after-restart-with-history", "in.init-script-failure", "in.request-before-init",
                              "in.mount-failure", "in.check-failure", "in.unmount-failure",
                              "in.kernel-mounted-mountpoint", "in.close-twice"]),
-               dict(cmd="fusemgrsub", mod="root", model="Model.FusemgrSub", quick=100, thorough=5000, shard=34,
+               dict(cmd="fusemgrsub", mod="root", model="Model.FusemgrSub", quick=100, thorough=5000, shard=34, race=60,
                     require=["in.bmount", "in.bcheck", "in.bunmount", "in.adv", "in.init", "in.close", "in.restart"])],
     rule="corpus of 7 hand-written histories + random histories (4..18 ops) of Init(cfg, failing stage | restore script) / Mount / Check / Unmount "
          "(each with the outcome of its backend call) / Close / manager restart over 6 mountpoints (one of them listed by the kernel mount table "
